@@ -355,4 +355,53 @@ class Concurrent(SubCheck):
         io_selftest(env)
 
 
-SUBCHECKS = [Sequential(), Concurrent()]
+class ProcessConcurrent(Concurrent):
+    """Producers and consumers as separate OS processes (the free-running tier of the plan, made schedulable)."""
+
+    name = 'concurrent_processes'
+
+    def examples(self, tier):
+        return 30 if tier == 'quick' else 1500
+
+    def execute(self, case, env):
+        import diskcache
+
+        from ..procsched import run_scheduled_procs
+
+        progs = case['progs']
+        init = case['init']
+        if case['one_prefix']:
+            progs = [[(op[0], op[1], 'q', op[3]) if op[0] == 'push' else (op[0], 'q', op[2]) for op in prog] for prog in progs]
+            init = [(v, 'q') for v, _ in init]
+        init_calls = []
+
+        def setup(path):
+            base = diskcache.Cache(path, timeout=0, eviction_policy='none', disk_min_file_size=8)
+            for v, p in init:
+                init_calls.append((p, base.push(mkv(v), prefix=p), v))
+            return base
+
+        def make_client(path, shared, i):
+            c = diskcache.Cache(path, timeout=0)
+            c._sql
+            return c
+
+        finals = [('pull', pfx, 'front') for pfx in (['q'] if case['one_prefix'] else CPREFIXES) for _ in range(6)]
+        calls, run = run_scheduled_procs(env, progs, case['schedule'], setup, make_client, do_conc, 'C10', final_ops=finals)
+        if run.limit_hit:
+            return {'nontrivial': False, 'classes': ['step-limit']}
+        mark_interleaved(calls, run.trace)
+        for c in calls:
+            if c.result[0] == 'exc':
+                raise Violation('C10/unexpected-exception/%s' % c.result[1], 'call %r\n%s' % (c, fmt(calls)))
+        d = {}
+        for p, key, v in init_calls:
+            d.setdefault(p, []).append((key, v))
+        init_state = tuple(sorted(((p, tuple(items)) for p, items in d.items()), key=lambda x: repr(x[0])))
+        if linearize(calls, init_state, conc_apply, lambda s: s) is None:
+            raise Violation('C10/linearizability/processes', 'no sequential order explains these results (initial %r):\n%s' % (init_state, fmt(calls)))
+        nontrivial = any(a.interleaved for a in calls if a.op[0] in ('pull', 'push'))
+        return {'nontrivial': nontrivial, 'classes': ['processes=%d' % len(progs)]}
+
+
+SUBCHECKS = [Sequential(), Concurrent(), ProcessConcurrent()]
